@@ -57,3 +57,14 @@ run C19 image_analysis.py 'if droplet_class != droplet.__class__:' 'if droplet._
 run C20 emulsions.py 'for i in reversed\(range\(len\(self\)\)\):' 'for i in range(len(self) - 1, -1, -1):' &
 run C13 droplets.py 'return self.radius \* \(1.0 \+ dist\)' 'return (dist + 1.0) * self.radius' &
 wait
+# --- edits touching the contracts added in rounds 6 / 7
+run C20 emulsions.py 'return self.__class__\(droplets, copy=False\)' 'return self.__class__(droplets)' &
+run C20 emulsions.py 'def __len__\(self\):\n        return len\(self.times\)' 'def __len__(self):
+        return len(self.emulsions)' &
+run C10 emulsions.py '\bneighbor\b' 'other_droplet' &
+wait
+run C04 image_analysis.py 'if droplet.interface_width is None:' 'if None is droplet.interface_width:' &
+run C11 droplets.py 'if value is None:\n            self.data\["interface_width"\] = math.nan' 'if None is value:
+            self.data["interface_width"] = math.nan' &
+run C06 droplets.py 'return distance < self.radius \+ other.radius' 'return self.radius + other.radius > distance' &
+wait
